@@ -366,8 +366,94 @@ def scan():
 from harness.C07 import SEED_SCRIPT, seed_sweep  # noqa: E402,F401
 
 
+def _grid_rows(tier):
+    from lib import grid
+
+    ids = grid.select(tier, salt=3)
+    size = 120 if tier == "quick" else 300
+    return [ids[i:i + size] for i in range(0, len(ids), size)]
+
+
+def _grid_conv(rid, kind):
+    """emitted artefact (as text) and the description parsed back from it, or the exception type"""
+    import ast as _ast
+    from lib.domain import emit_kind, mk_ir, parse_kind
+
+    try:
+        art = emit_kind(mk_ir(rid), kind, {})
+        txt = art if isinstance(art, str) else _ast.unparse(_ast.fix_missing_locations(art))
+        back = parse_kind(art, kind, {})
+        back.pop("_internal", None)
+        return (txt, repr(back))
+    except Exception as e:
+        return ("EXC", type(e).__name__)
+
+
+def grid_repeat(quick, chunk, i):
+    """generated shape i of the chunk: each of the 7 conversions gives the same bytes before and after converting ANOTHER description"""
+    from lib.domain import KINDS
+
+    i = realize(i)
+    with untraced():
+        rows = _grid_rows("quick" if quick else "thorough")[chunk]
+        rid, other = rows[i], rows[(i * 7 + 3) % len(rows)]
+        for k in KINDS:
+            a1 = _grid_conv(rid, k)
+            _grid_conv(other, KINDS[(KINDS.index(k) + i) % len(KINDS)])
+            if _grid_conv(rid, k) != a1:
+                return False
+        return True
+
+
+GRID_SEED_SCRIPT = r'''
+import sys, hashlib
+sys.path.insert(0, "/verif")
+import lib.prelude
+import harness.C12 as H
+from lib.domain import KINDS
+h = hashlib.sha256()
+for ch in H._grid_rows(sys.argv[1]):
+    for rid in ch:
+        for k in KINDS:
+            h.update(repr(H._grid_conv(rid, k)).encode())
+print(h.hexdigest())
+'''
+
+
+def grid_seed_sweep(tier, n):
+    import subprocess
+    import sys as _sys
+    from concurrent.futures import ThreadPoolExecutor
+    from lib.chutil import fresh_env
+
+    def one(seed):
+        p = subprocess.run([_sys.executable, "-c", GRID_SEED_SCRIPT, tier], capture_output=True, text=True, env=fresh_env(seed))
+        return p.returncode, p.stdout.strip(), p.stderr[-300:]
+
+    seeds = list(range(n)) + ["random"]
+    with ThreadPoolExecutor(4) as ex:
+        res = list(ex.map(one, seeds))
+    if any(rc != 0 for rc, _, _ in res):
+        return {"status": "inconclusive", "detail": [e for rc, _, e in res if rc != 0][0], "queries": len(seeds)}
+    digs = {d for _, d, _ in res}
+    nrows = sum(len(c) for c in _grid_rows(tier))
+    if len(digs) == 1:
+        return {"status": "discharged", "detail": "identical digest of %d rows x 7 conversions (emitted bytes and parsed-back description) under "
+                "PYTHONHASHSEED 0..%d and random" % (nrows, n - 1), "queries": len(seeds)}
+    return {"status": "violated", "detail": "%d different digests across hash seeds" % len(digs), "cex": {"seeds": n}, "queries": len(seeds)}
+
+
 def obligations(tier, seed):
     obs = []
+    for c, ids in enumerate(_grid_rows(tier)):
+        obs.append(Ob(name="grid_repeat_%d" % c, params=[("i", "int")], pre=["0 <= i < %d" % len(ids)],
+                      body="H.grid_repeat(%r, %d, i)" % (tier == "quick", c), witness=(0,), kind="F",
+                      bounds="generated shapes %s..%s (%d rows of lib/grid.py, table-indexed): all 7 conversions, repeated after converting another row"
+                      % (ids[0], ids[-1], len(ids)), timeout=300 if tier == "quick" else 1200, path_timeout=100, funcs=FUNCS))
+    obs.append(ZOb(name="hashseed_sweep_grid", run=lambda: grid_seed_sweep(tier, 4 if tier == "quick" else 12),
+                   replay=lambda cex: (grid_seed_sweep(tier, 4)["status"] == "violated", "re-ran the sweep"),
+                   bounds="process-level cross-check: every generated shape of the tier through all 7 conversions in sub-processes under "
+                   "PYTHONHASHSEED 0..%d and random" % (3 if tier == "quick" else 11)))
     N = N_NOKW if tier == "quick" else len(HASH_CFGS)
     chunks = 1 if tier == "quick" else 6
     for style in range(3):
